@@ -569,6 +569,15 @@ def run(ctx):
     check_variables(ctx)
     check_identifier_paths(ctx)
     check_word_atomic(ctx)
+    # numeric constants: the printer's text is one numeric literal of the library's own lexer that converts back to exactly the value (C07's table)
+    from .. import core
+    from . import C07
+    sub = core.Ctx('C07', ctx.src, ctx.tier)
+    C07.check_number_printer(sub)
+    ctx.setcount('number_probes', sub.counts.get('number_probes', 0))
+    ctx.ob('C04.number-printer', 'all', True, '')
+    for f in sub.findings:
+        ctx.ob('C04.number-printer', f.construct, False, f.msg, file=f.file, line=f.line, witness=f.witness)
     check_identifier_encoder(ctx)
     ctx.sample({'value_probes': VALUE_PROBES[:10]})
     ctx.floor('string_decoders', 6)
